@@ -4,48 +4,99 @@ import SoxrModel.Conc.Model
 
 `Inv` holds in `warm n` (initialisation done, `n` threads outside) and in `cold n` (process start), and is preserved by every
 step of every thread **provided** a thread enters the unguarded initialiser only while no other thread is inside it
-(`StepS`; from `warm n` that proviso is vacuous because `FFT_LEN` never becomes negative again).  All clauses but two are
-linear, so `omega` discharges each (transition, clause) pair; the two list clauses (`pend`, `wtl`: the thread-local `len` of
-the at most one thread re-allocating / rebuilding) are handled by hand for the four transitions that touch them.
+(`StepS`; from `warm n` that proviso is vacuous because `FFT_LEN` never becomes negative again).
+
+Every clause but two is linear in the shared variables and in the numbers of threads at fixed *sets* of program points; a
+step moves one thread, so each such number changes by a constant that `decide` computes (`sumL_move`), and `omega`
+discharges every (transition, clause) pair.  The two list clauses (`pend`, `wtl`: the thread-local `len` of the at most one
+thread re-allocating / rebuilding) are handled by hand for the four transitions that touch them.
 -/
 namespace Soxr.Conc
+
+def ind (p : Pc) (L : List Pc) : Nat := if p ∈ L then 1 else 0
+
+theorem sumL_move (f : Pc → Nat) (a b : Pc) (hab : a ≠ b) (ha : 0 < f a) :
+    ∀ L : List Pc, L.Nodup → sumL (move f a b) L + ind a L = sumL f L + ind b L
+  | [], _ => by simp [sumL, ind]
+  | p :: ps, hn => by
+    have hp : p ∉ ps := (List.nodup_cons.mp hn).1
+    have ih := sumL_move f a b hab ha ps (List.nodup_cons.mp hn).2
+    by_cases h1 : p = a
+    · subst h1
+      have : ind p ps = 0 := by simp [ind, hp]
+      have hb : ind b (p :: ps) = ind b ps := by
+        simp only [ind, List.mem_cons]
+        have : b ≠ p := fun h => hab h.symm
+        simp [this]
+      have ha' : ind p (p :: ps) = 1 := by simp [ind]
+      simp only [sumL, move, if_true, hb, ha']
+      omega
+    · by_cases h2 : p = b
+      · subst h2
+        have : ind p ps = 0 := by simp [ind, hp]
+        have hb : ind a (p :: ps) = ind a ps := by
+          simp only [ind, List.mem_cons]
+          simp [hab]
+        have hb' : ind p (p :: ps) = 1 := by simp [ind]
+        simp only [sumL, move, h1, if_false, if_true, hb, hb']
+        omega
+      · have e1 : ind a (p :: ps) = ind a ps := by
+          simp only [ind, List.mem_cons]
+          have : a ≠ p := fun h => h1 h.symm
+          simp [this]
+        have e2 : ind b (p :: ps) = ind b ps := by
+          simp only [ind, List.mem_cons]
+          have : b ≠ p := fun h => h2 h.symm
+          simp [this]
+        simp only [sumL, move, h1, h2, if_false, e1, e2]
+        omega
+
+/-! Sets of program points used by the invariant. -/
+/-- holding `mutex_1` -/
+def m1S : List Pc := [.r4, .r5, .r6, .e4, .e5, .e6, .x2, .x3, .x4, .u2, .u3, .u4]
+/-- between `++readcount` and `--readcount` -/
+def rcS : List Pc := [.r5, .r6, .r7, .r8, .c0, .rd, .x1, .x2, .u1, .u2, .e5, .e6, .e7, .e8, .c2]
+/-- first reader waiting for `w` -/
+def r5S : List Pc := [.r5, .e5]
+/-- last reader about to release `w` -/
+def x3S : List Pc := [.x3, .u3]
+/-- anywhere past the initialiser -/
+def busyS : List Pc :=
+  [.r1, .r2, .r3, .r4, .r5, .r6, .r7, .r8, .c0, .rd, .x1, .x2, .x3, .x4, .u1, .u2, .u3, .u4, .w1, .w2, .w3, .w4, .w5,
+   .c1, .b0, .wt, .y1, .y2, .y3, .y4, .y5, .d1, .d2, .d3, .d4, .d5, .e1, .e2, .e3, .e4, .e5, .e6, .e7, .e8, .c2]
+/-- points only reached after a test `len <= FFT_LEN` succeeded with a positive `len` -/
+def posS : List Pc :=
+  [.rd, .c2, .d1, .d2, .d3, .d4, .d5, .e1, .e2, .e3, .e4, .e5, .e6, .e7, .e8, .x1, .x2, .x3, .x4]
 
 /-- the linear clauses -/
 structure InvL (s : St) : Prop where
   -- mutex_1 is held exactly by the threads between its P and V
-  m1_def : s.m1 = s.r4 + s.r5 + s.r6 + s.e4 + s.e5 + s.e6 + s.x2 + s.x3 + s.x4 + s.u2 + s.u3 + s.u4
+  m1_def : s.m1 = s.num m1S
   m1_le : s.m1 ≤ 1
   -- readcount counts the threads between `++readcount` and `--readcount`
-  rc_def : s.readcount = ((s.r5 + s.r6 + s.r7 + s.r8 + s.c0 + s.rd + s.x1 + s.x2 + s.u1 + s.u2 +
-                           s.e5 + s.e6 + s.e7 + s.e8 + s.c2 : Nat) : Int)
+  rc_def : s.readcount = (s.num rcS : Int)
   -- `w` is held by the one writer or by the reader group
-  w_def : s.w = s.c1 + s.b0 + s.wt + s.y1 + s.d1 + s.gw
+  w_def : s.w = s.num writersS + s.gw
   w_le : s.w ≤ 1
   gw_le : s.gw ≤ 1
-  gw_on : s.gw = 1 → (0 < s.readcount ∧ s.r5 + s.e5 = 0) ∨ s.x3 + s.u3 = 1
-  gw_off : s.gw = 0 → (s.readcount = 0 ∨ s.r5 + s.e5 = 1) ∧ s.x3 + s.u3 = 0
-  r5_rc : 0 < s.r5 + s.e5 → s.readcount = 1
-  x3_rc : 0 < s.x3 + s.u3 → s.readcount = 0
+  gw_on : s.gw = 1 → (0 < s.readcount ∧ s.num r5S = 0) ∨ s.num x3S = 1
+  gw_off : s.gw = 0 → (s.readcount = 0 ∨ s.num r5S = 1) ∧ s.num x3S = 0
+  r5_rc : 0 < s.num r5S → s.readcount = 1
+  x3_rc : 0 < s.num x3S → s.readcount = 0
   -- the initialiser: at most one thread inside; before it completes nobody is anywhere else; afterwards nobody is inside
-  init_le : s.i1 + s.i2 + s.i3 + s.i4 + s.i5 + s.i6 ≤ 1
+  init_le : s.num inInitS ≤ 1
   flen_ge : -1 ≤ s.flen
-  cold_quiet : s.flen < 0 →
-    s.r1 + s.r2 + s.r3 + s.r4 + s.r5 + s.r6 + s.r7 + s.r8 + s.c0 + s.rd + s.x1 + s.x2 + s.x3 + s.x4 +
-    s.u1 + s.u2 + s.u3 + s.u4 + s.w1 + s.w2 + s.w3 + s.w4 + s.w5 + s.c1 + s.b0 + s.wt +
-    s.y1 + s.y2 + s.y3 + s.y4 + s.y5 + s.d1 + s.d2 + s.d3 + s.d4 + s.d5 +
-    s.e1 + s.e2 + s.e3 + s.e4 + s.e5 + s.e6 + s.e7 + s.e8 + s.c2 = 0 ∧
-    s.m1 = 0 ∧ s.w = 0 ∧ s.gw = 0 ∧ s.readcount = 0 ∧ s.tab = 0 ∧ s.nReset = 0 ∧ s.nStore = 0 ∧
-    s.nInit = s.i1 + s.i2 + s.i3 + s.i4 + s.i5 + s.i6
-  warm_done : 0 ≤ s.flen → s.i1 + s.i2 + s.i3 + s.i4 + s.i5 + s.i6 = 0 ∧ s.nInit = 1 ∧ s.nReset = 1
+  cold_quiet : s.flen < 0 → s.num busyS = 0 ∧ s.m1 = 0 ∧ s.w = 0 ∧ s.gw = 0 ∧ s.readcount = 0 ∧ s.tab = 0 ∧
+    s.nReset = 0 ∧ s.nStore = 0 ∧ s.nInit = s.num inInitS
+  warm_done : 0 ≤ s.flen → s.num inInitS = 0 ∧ s.nInit = 1 ∧ s.nReset = 1
   -- the tables
-  pend_len : s.pend.length = s.b0
-  wtl_len : s.wtl.length = s.wt
+  pend_len : s.pend.length = s.num [.b0]
+  wtl_len : s.wtl.length = s.num [.wt]
   tab_ge : 0 ≤ s.tab
   tab_le : 0 ≤ s.flen → s.tab ≤ s.flen
-  tab_eq : s.wt = 0 → 0 ≤ s.flen → s.tab = s.flen
+  tab_eq : s.num [.wt] = 0 → 0 ≤ s.flen → s.tab = s.flen
   store_le : 0 ≤ s.flen → (s.nStore : Int) ≤ s.flen
-  flen_pos : 0 < s.rd + s.c2 + s.d1 + s.d2 + s.d3 + s.d4 + s.d5 +
-                 s.e1 + s.e2 + s.e3 + s.e4 + s.e5 + s.e6 + s.e7 + s.e8 + s.x1 + s.x2 + s.x3 + s.x4 → 0 < s.flen
+  flen_pos : 0 < s.num posS → 0 < s.flen
 
 /-- the two clauses about the thread-local `len` of the thread that is re-allocating (`b0`) / rebuilding (`wt`) -/
 structure InvD (s : St) : Prop where
@@ -56,148 +107,36 @@ structure Inv (s : St) : Prop where
   lin : InvL s
   dat : InvD s
 
+theorem sumL_zero (n : Nat) (L : List Pc) (h : Pc.idle ∉ L) : sumL (fun p => if p = .idle then n else 0) L = 0 := by
+  induction L with
+  | nil => rfl
+  | cons p ps ih =>
+    simp only [List.mem_cons, not_or] at h
+    have : p ≠ .idle := fun e => h.1 e.symm
+    simp [sumL, this, ih h.2]
+
 theorem inv_warm (n : Nat) : Inv (warm n) := by
   refine ⟨?_, ?_⟩
-  · constructor <;> simp [warm, zero]
+  · constructor <;> simp [warm, zero, St.num, sumL_zero, m1S, rcS, writersS, r5S, x3S, inInitS, busyS, posS]
   · constructor <;> simp [warm, zero]
 
 theorem inv_cold (n : Nat) : Inv (cold n) := by
   refine ⟨?_, ?_⟩
+  · constructor <;> simp [cold, zero, St.num, sumL_zero, m1S, rcS, writersS, r5S, x3S, inInitS, busyS, posS]
   · constructor <;> simp [cold, zero]
-  · constructor <;> simp [cold, zero]
 
-private theorem length_le_one_erase {a : Int} : ∀ {l : List Int}, l.length ≤ 1 → a ∈ l → l.erase a = []
-  | [], _, h => by simp at h
-  | [b], _, h => by
-    have : a = b := by simpa using h
-    subst this; simp
-  | _ :: _ :: _, h, _ => by simp at h
+/-- static inclusions between the sets, as inequalities between the thread numbers -/
+structure Incl (s : St) : Prop where
+  b0_wt : s.num [.b0] + s.num [.wt] ≤ s.num writersS
+  m1_busy : s.num m1S ≤ s.num busyS
+  rc_busy : s.num rcS ≤ s.num busyS
+  wr_busy : s.num writersS ≤ s.num busyS
+  pos_busy : s.num posS ≤ s.num busyS
+  r5_rc : s.num r5S ≤ s.num rcS
+  r5_m1 : s.num r5S + s.num x3S ≤ s.num m1S
+  x3_busy : s.num x3S ≤ s.num busyS
 
-private theorem eq_nil_of_length_eq_zero' {l : List Int} (h : l.length = 0) : l = [] := by
-  cases l with
-  | nil => rfl
-  | cons _ _ => simp at h
-
-/-- the linear clauses are preserved by every step that respects the serial-initialisation proviso -/
-set_option maxHeartbeats 20000000 in
-theorem invL_step (l : Label) (s : St) (h : Inv s) (g : guard l s) (hs : l = .i0_cold → s.i1 + s.i2 + s.i3 + s.i4 + s.i5 + s.i6 = 0) :
-    InvL (eff l s) := by
-  obtain ⟨⟨h1, h2, h3, h4, h5, h6, h7, h8, h9, h10, h11, h12, h13, h14, h15, h16, h17, h18, h19, h20, h21⟩, ⟨d1, d2⟩⟩ := h
-  cases l
-  case c1_pass len =>
-    simp only [guard] at g
-    constructor <;> simp only [eff, List.length_cons] <;> omega
-  case store len =>
-    simp only [guard] at g
-    have hb : s.pend.length ≤ 1 := by omega
-    have hlt := d1 len g.2
-    have he := List.length_erase_of_mem g.2
-    constructor <;> simp only [eff, List.length_cons, he] <;> (try split) <;> omega
-  case build len =>
-    simp only [guard] at g
-    have hlt := d2 len g.2
-    have he := List.length_erase_of_mem g.2
-    constructor <;> simp only [eff, he] <;> (try split) <;> omega
-  case i0_cold =>
-    have hq := hs rfl
-    simp only [guard] at g
-    constructor <;> simp only [eff] <;> omega
-  all_goals
-    simp only [guard] at g
-    constructor <;> simp only [eff] <;> omega
-
-/-- the list clauses are preserved too -/
-theorem invD_step (l : Label) (s : St) (h : Inv s) (g : guard l s) : InvD (eff l s) := by
-  obtain ⟨hl, ⟨d1, d2⟩⟩ := h
-  cases l
-  case c1_pass len =>
-    simp only [guard] at g
-    refine ⟨?_, ?_⟩
-    · intro x hx
-      simp only [eff, List.mem_cons] at hx ⊢
-      rcases hx with rfl | hx
-      · exact g.2
-      · exact d1 x hx
-    · exact d2
-  case store len =>
-    simp only [guard] at g
-    have hb : s.pend.length ≤ 1 := by have := hl.pend_len; have := hl.w_def; have := hl.w_le; omega
-    have hw : s.wtl = [] := eq_nil_of_length_eq_zero' (by have := hl.wtl_len; have := hl.w_def; have := hl.w_le; omega)
-    refine ⟨?_, ?_⟩
-    · intro x hx
-      simp only [eff, length_le_one_erase hb g.2] at hx
-      cases hx
-    · intro x hx
-      simp only [eff, hw, List.mem_cons, List.not_mem_nil, or_false] at hx ⊢
-      exact hx
-  case build len =>
-    simp only [guard] at g
-    refine ⟨d1, ?_⟩
-    intro x hx
-    simp only [eff] at hx ⊢
-    exact d2 x (List.mem_of_mem_erase hx)
-  case ini6 =>
-    simp only [guard] at g
-    have hneg : s.flen < 0 := by
-      have := hl.warm_done; have := hl.flen_ge; omega
-    have hq := hl.cold_quiet hneg
-    have hp : s.pend = [] := eq_nil_of_length_eq_zero' (by have := hl.pend_len; omega)
-    have hw : s.wtl = [] := eq_nil_of_length_eq_zero' (by have := hl.wtl_len; omega)
-    refine ⟨?_, ?_⟩ <;> intro x hx <;> simp only [eff, hp, hw] at hx <;> cases hx
-  all_goals exact ⟨d1, d2⟩
-
-theorem inv_step (l : Label) (s : St) (h : Inv s) (g : guard l s) (hs : l = .i0_cold → s.inInit = 0) : Inv (eff l s) :=
-  ⟨invL_step l s h g hs, invD_step l s h g⟩
-
-theorem fire_some {l : Label} {s t : St} (h : fire l s = some t) : guard l s ∧ t = eff l s := by
-  unfold fire at h
-  split at h
-  · exact ⟨‹_›, by injection h with h; exact h.symm⟩
-  · cases h
-
-theorem inv_stepS {s t : St} (h : Inv s) (st : StepS s t) : Inv t := by
-  obtain ⟨l, hf, hs⟩ := st
-  obtain ⟨g, rfl⟩ := fire_some hf
-  exact inv_step l s h g hs
-
-/-- the invariant holds in every state reachable from process start under the serial-initialisation hypothesis -/
-theorem inv_of_reachableS_cold {n : Nat} {s : St} (h : ReachableS (cold n) s) : Inv s := by
-  induction h with
-  | init => exact inv_cold n
-  | step _ st ih => exact inv_stepS ih st
-
-/-- once `FFT_LEN ≥ 0` holds it holds for ever, and the cold test can no longer be passed: from `warm n` every step is a
-    serial-initialisation step -/
-theorem inv_of_reachable_warm {n : Nat} {s : St} (h : Reachable (warm n) s) : Inv s ∧ 0 ≤ s.flen := by
-  induction h with
-  | init => exact ⟨inv_warm n, by simp [warm, zero]⟩
-  | @step s t _ st ih =>
-    obtain ⟨l, hf⟩ := st
-    obtain ⟨g, rfl⟩ := fire_some hf
-    have hs : l = .i0_cold → s.inInit = 0 := by
-      rintro rfl
-      simp only [guard] at g
-      omega
-    have hi := inv_step l s ih.1 g hs
-    refine ⟨hi, ?_⟩
-    -- FFT_LEN stays non-negative
-    have h0 := ih.2
-    have hd := ih.1.dat.pend_gt
-    have hw := ih.1.lin.warm_done h0
-    cases l <;> simp only [eff] <;> try exact h0
-    case ini6 => simp only [guard] at g; omega
-    case store len => simp only [guard] at g; have := hd len g.2; omega
-
-theorem reachableS_of_reachable_warm {n : Nat} {s : St} (h : Reachable (warm n) s) : ReachableS (warm n) s := by
-  induction h with
-  | init => exact .init
-  | @step s t hr st ih =>
-    obtain ⟨l, hf⟩ := st
-    refine .step ih ⟨l, hf, ?_⟩
-    rintro rfl
-    obtain ⟨g, _⟩ := fire_some hf
-    have := (inv_of_reachable_warm hr).2
-    simp only [guard] at g
-    omega
+theorem incl (s : St) : Incl s := by
+  constructor <;> simp only [St.num, sumL, m1S, rcS, writersS, r5S, x3S, busyS, posS] <;> omega
 
 end Soxr.Conc
